@@ -239,6 +239,14 @@ pub fn run_engine<E: Engine>(engine: &E, opts: &RunOpts) -> i32 {
                         }
                         other => other,
                     };
+                    if let Ok(want) = std::env::var("VERIF_DUMP_LABEL") {
+                        if st.labels.contains(&want) {
+                            let path = format!("/tmp/dump_{}_{}.json", id, want);
+                            if !std::path::Path::new(&path).exists() {
+                                let _ = std::fs::write(&path, serde_json::to_string(&json!({"case": &case})).unwrap());
+                            }
+                        }
+                    }
                     if !failed.get() {
                         let mut l = local_cell.borrow_mut();
                         l.evaluations += 1;
